@@ -38,3 +38,10 @@ func Keys(v reflect.Value) int {
 }
 
 func keys(v reflect.Value) int { return len(v.MapKeys()) }
+
+// Wrap boxes a value that may be "no value" (the zero Value): Set and Append panic on it.
+func Wrap(v reflect.Value) reflect.Value {
+	arr := reflect.MakeSlice(reflect.TypeOf([]interface{}{}), 1, 1)
+	arr.Index(0).Set(v)
+	return reflect.Append(arr, v)
+}
